@@ -44,7 +44,8 @@ type Resolver struct {
 // NewResolver creates a new did:web Resolver with default TLS configuration.
 func NewResolver() *Resolver {
 	return &Resolver{
-		HttpClient: client.NewWithCache(5 * time.Second),
+		// the document must come from the host (and port) in the DID: don't follow redirects to other hosts or plain HTTP
+		HttpClient: client.NewWithCache(5 * time.Second).SameOriginRedirects(),
 	}
 }
 
